@@ -9,7 +9,7 @@ use crate::gen::{self, Profile};
 use crate::prelude::RefCfg;
 use crate::rd::fnv64;
 
-pub const TRIGGERS: [&str; 9] = ["E2", "E3", "E4", "E5", "E6", "E8", "E9", "E10", "S1"];
+pub const TRIGGERS: [&str; 10] = ["E2", "E3", "E4", "E5", "E6", "E8", "E9", "E10", "E11", "S1"];
 
 pub type GenFn = Box<dyn Fn(&[u8]) -> (crate::ast::Program, Vec<&'static str>)>;
 
